@@ -9,9 +9,10 @@ Layers (all enumerated completely; sizes are measured and written to the evidenc
        10 core leaves, 4-operand chains over a small leaf set)                        - depth 1
   P2   every constructor with >=1 child taken from R1 = one representative per VALUE CLASS
        (type, exact value | exception class) of the depth-1 layer, other children leaves - depth 2
-  P3   (thorough) the same one level up, children from the classes of a depth-2 layer   - depth 3
-  VAL  validation of the class reduction: EVERY member of the validation layer (not only the
-       representative) is put into every depth-1 context, judged against Python and compared
+  P3   (thorough) the same one level up: >=1 child = representative of a value class of the
+       depth-2 sub-layer Y of P2 (children over the minimal alphabet), other children leaves - depth 3
+  VAL  validation of the class reduction: EVERY member of the validation layer that is not itself a
+       pool representative is put into every depth-1 context, judged against Python and compared
        with what the engine does for its class representative in the same context
   FE   text-sensitive front end (boolean-literal rewriting, pathway auto-detection): every
        depth<=1 expression over trigger strings ('True', 'false and', ' or ', '<', '[' ...) is
@@ -150,7 +151,7 @@ CALL1 = ("abs round int float bool len sum min max sqrt sin cos tan asin acos at
 CALL2 = "round int min max sum atan2 log pow gcd".split()
 CALL3 = "max min".split()
 # keyword shapes: (template with {a} {b}), arity
-CALLKW1 = ("round(number={a})", "int(x={a})", "sum({a}, start=1)", "max({a}, default=7)", "min({a}, key=abs)")
+CALLKW1 = ("round(number={a})", "int(x={a})", "sum({a}, start=3)", "max({a}, default=9)", "min({a}, key=abs)")
 CALLKW2 = ("round({a}, ndigits={b})", "int({a}, base={b})", "sum({a}, start={b})", "max({a}, default={b})",
            "min({a}, default={b})", "max({a}, {b}, key=abs)", "min({a}, {b}, key=abs)", "log({a}, base={b})",
            "round(number={a}, ndigits={b})", "round(ndigits={b}, number={a})")
@@ -247,8 +248,8 @@ class Layer:
                 yield f"[{a.t}, {b.t}]"
                 yield f"({a.t}, {b.t})"
                 if self.observe_only:
-                    yield f"{a.p} if {b.p} else 0"
-                    yield f"1 if {a.p} else {b.p}"
+                    yield f"{a.p} if {b.p} else 9"
+                    yield f"8 if {a.p} else {b.p}"
                     continue
                 for f in CALL2:
                     if f == "pow" and too_big(f, a, b):
@@ -490,6 +491,7 @@ def merge_acc(dst, src):
 # ----------------------------------------------------------------------------------------------
 LAYERS: dict = {}
 VAL_REPS: dict = {}  # class key -> representative E (validation pass)
+VAL_SKIP: set = set()
 VAL_CTX_LEAVES: list = []
 
 
@@ -553,13 +555,13 @@ def _work_validate(kind, i, acc, skipped):
     """members of the validation layer in every depth-1 context, against Python and against the rep"""
     layer = LAYERS["VALSRC"]
     for text in layer.gen(kind, i, skipped):
+        if text in VAL_SKIP:
+            continue  # a pool representative: P2 already puts it into every context
         refs = ref_eval(text)
         ck = _class_of(refs)
         rep = VAL_REPS.get(ck)
         if rep is None:
             raise common.HarnessError(f"validation: no representative for class of {text!r}")
-        if rep.t == text:
-            continue
         m = mk(text)
         if m.ok and isinstance(m.v, (int, float)) and abs(m.v) > 10**6 or _seq_len(m.v) is not None and len(m.v) > 100:
             raise common.HarnessError(f"validation member {text!r} is not small")
@@ -625,7 +627,7 @@ def _reps(classes, exclude_texts=()):
 
 
 def run(ctx):
-    global VAL_REPS, VAL_CTX_LEAVES
+    global VAL_REPS, VAL_CTX_LEAVES, VAL_SKIP
     thorough = ctx.tier == "thorough"
     total = new_acc()
     sizes = {}
@@ -647,20 +649,24 @@ def run(ctx):
     f1 = Layer("F1", D=full, Dt=core if thorough else small + [by_text["False"], by_text["''"]],
                Dq=small if thorough else tiny, classes=True, empties=True)
     LAYERS["F1"] = f1
+    sk0 = [0]
+    f1_texts = [t for task in f1.tasks() for t in f1.gen(task[1], task[2], sk0)]
+    if len(set(f1_texts)) != len(f1_texts):
+        raise common.HarnessError("F1 generates a text twice: distinct-expression counts would be wrong")
+    del f1_texts
     run_layer(f1)
     classes_f1 = dict(total["classes"])
     total["classes"] = {}
 
     # ---- class layers used as children pools ------------------------------------------------
-    # C1x = F1 over a sub-alphabet, enumerated again only to collect its value classes (not re-judged)
-    def classes_of(leaves, label):
-        lay = Layer("CLS", D=leaves)
+    # F1 restricted to a sub-alphabet, enumerated again (reference only) to collect its value classes
+    def classes_of(layer, label):
         cl = {}
         sk = [0]
-        for (_n, kind, i) in lay.tasks():
+        for (_n, kind, i) in layer.tasks():
             if kind != "U":
                 continue
-            for text in lay.gen(kind, i, sk):
+            for text in layer.gen(kind, i, sk):
                 ck = _class_of(ref_eval(text))
                 rep = (len(text), text)
                 if ck not in cl or rep < cl[ck]:
@@ -668,76 +674,81 @@ def run(ctx):
         sizes[f"classes[{label}]"] = len(cl)
         return cl
 
-    r1_wide = _reps(classes_of(core if thorough else small, "R1wide"))
-    r1_narrow = _reps(classes_of(small if thorough else minimal, "R1narrow"))
-    r1_tern = _reps(classes_of(tiny, "R1tern")) if thorough else r1_narrow[: 12]
+    def ckey(e):
+        return ("ok", vkey(e.v)) if e.ok else ("exc", e.v)
+
+    wide_cl = classes_of(Layer("CLS", D=core if thorough else small), "R1wide")
+    r1_wide = _reps(wide_cl)
+    r1_narrow = _reps(classes_of(Layer("CLS", D=small if thorough else minimal), "R1narrow"))
+    r1_tern = _reps(classes_of(Layer("CLS", D=tiny), "R1tern"))[:24] if thorough else r1_narrow[:8]
     sizes["classes[F1]"] = len(classes_f1)
+    pool_texts = {e.t for e in r1_wide} | {e.t for e in r1_narrow} | {e.t for e in r1_tern}
 
     # ---- P2: depth 2 --------------------------------------------------------------------------
-    p2a = Layer("P2a", D=r1_narrow, S=small, pairs="full", Dt=r1_tern[:24] if thorough else r1_tern[:8], St=tiny,
-                classes=thorough, modes=m3)
+    p2a = Layer("P2a", D=r1_narrow, S=small, pairs="full", Dt=r1_tern, St=tiny, modes=m3)
     p2b = Layer("P2b", D=[e for e in r1_wide if e.t not in {x.t for x in r1_narrow}], S=small, pairs="mixed", modes=m3)
     LAYERS["P2a"], LAYERS["P2b"] = p2a, p2b
     run_layer(p2a)
-    classes_p2 = dict(total["classes"])
-    total["classes"] = {}
     run_layer(p2b)
     if thorough:
-        p2c = Layer("P2c", D=_reps(classes_f1, exclude_texts={e.t for e in r1_wide} | {e.t for e in r1_narrow}), S=tiny,
-                    pairs="mixed", modes=m3)
+        # classes of the complete F1 layer that have no representative yet (trigger-string ones are covered by FE2)
+        rest = [e for e in _reps(classes_f1, exclude_texts=pool_texts) if "'True'" not in e.t and "'false and'" not in e.t]
+        p2c = Layer("P2c", D=rest, S=tiny, pairs="mixed", modes=m3)
         LAYERS["P2c"] = p2c
         run_layer(p2c)
 
     # ---- P3: depth 3 (thorough) ---------------------------------------------------------------
     if thorough:
-        r2 = _reps(classes_p2)
-        sizes["classes[P2a]"] = len(r2)
-        p3 = Layer("P3", D=r2, S=tiny + [by_text["True"], by_text["-3"]], pairs="mixed", modes=("auto", "math", "logic"))
+        # value classes of the sub-layer Y of P2a (children: narrow representatives whose class also occurs over the
+        # minimal alphabet; other children minimal leaves); every Y member is a P2a member and was judged there
+        min_classes = set(classes_of(Layer("CLS", D=minimal), "R1min"))
+        y = Layer("Y", D=[e for e in r1_narrow if ckey(e) in min_classes], S=minimal, pairs="full")
+        r2 = _reps(classes_of(y, "R2"))
+        p3 = Layer("P3", D=r2, S=[by_text["2"], by_text["'a'"]], pairs="mixed", modes=m3)
         LAYERS["P3"] = p3
         run_layer(p3)
 
     # ---- VAL: validation of the class reduction -------------------------------------------------
-    val_leaves = small if thorough else tiny
-    valsrc = Layer("VALSRC", D=val_leaves)
+    # every member of the depth-1 layer over the validation alphabet that is NOT itself a pool representative is put
+    # into every depth-1 context; the representative it is compared with is the one the P2 pools use for its class
+    valsrc = Layer("VALSRC", D=small if thorough else tiny)
     LAYERS["VALSRC"] = valsrc
-    cl = {}
-    sk = [0]
-    for (_n, kind, i) in valsrc.tasks():
-        for text in valsrc.gen(kind, i, sk):
-            ck = _class_of(ref_eval(text))
-            rep = (len(text), text)
-            if ck not in cl or rep < cl[ck]:
-                cl[ck] = rep
-    VAL_REPS = {ck: mk(t) for ck, (_l, t) in cl.items()}
+    VAL_REPS = {ck: mk(t) for ck, (_l, t) in wide_cl.items()}
+    VAL_SKIP = pool_texts
     VAL_CTX_LEAVES = small if thorough else tiny + [by_text["True"]]
     before = total["n_expr"]
     _run_tasks([("VAL", kind, i) for (_n, kind, i) in valsrc.tasks() if kind == "U"], ctx, total)
     sizes["VAL"] = total["n_expr"] - before
 
     # ---- FE: text-sensitive front end -----------------------------------------------------------
-    trig_q = ["'True'", "'false'", "'false and'", "' or '", "'<'"]
+    # deep pool: trigger strings that are not leaves of F1 (so FE1 is disjoint from F1); the two trigger strings
+    # that are F1 leaves take part as partners
+    trig_q = ["'false'", "' or '", "'<'"]
     trig_t = trig_q + ["'False'", "'true'", "' and '", "' not '", "'=='", "'['", "'{'", "'xTruex'"]
     trig = [mk(t, atomic=True) for t in (trig_t if thorough else trig_q)]
-    partners = [mk(t, atomic=True) for t in (["0", "1", "4", "5", "'a'", "'1'", "True", "'0'"] if thorough else
+    leaf_trig = [by_text["'True'"], by_text["'false and'"]]
+    partners = [mk(t, atomic=True) for t in (["1", "4", "'a'", "'1'", "0", "5", "True", "'0'"] if thorough else
                                              ["1", "4", "'a'", "'1'"])]
-    fe1 = Layer("FE1", D=trig, S=partners, pairs="full", Dt=trig[:3], St=partners[:2])
+    fe1 = Layer("FE1", D=trig, S=leaf_trig + partners, pairs="full", Dt=trig[:2], St=leaf_trig[:1] + partners[:2])
     LAYERS["FE1"] = fe1
     run_layer(fe1)
-    # FE2: every FE1 member (unreduced: the front end is not compositional) inside observing contexts
+    # FE2: every depth-1 expression over trigger strings and partners that contains a trigger string, UNREDUCED
+    # (the front end is not compositional), inside every observing depth-1 context
     sk = [0]
     members = []
-    for (_n, kind, i) in fe1.tasks():
-        if kind == "U":
-            members.extend(fe1.gen(kind, i, sk))
-    members = sorted(set(members), key=lambda t: (len(t), t))
+    for lay in (fe1, Layer("FE1b", D=leaf_trig, S=partners)):
+        for (_n, kind, i) in lay.tasks():
+            if kind == "U":
+                members.extend(lay.gen(kind, i, sk))
+    if len(set(members)) != len(members):
+        raise common.HarnessError("FE2 member texts are not unique")
+    members.sort(key=lambda t: (len(t), t))
     fe2 = Layer("FE2", D=[mk(t) for t in members], S=partners[: (4 if thorough else 2)], pairs="mixed-nodiag", observe_only=True,
-                modes=("auto", "logic", "math"))
+                modes=m3)
     LAYERS["FE2"] = fe2
     run_layer(fe2)
 
-    # ---- TV / TOOL lists --------------------------------------------------------------------------
-    LISTS["TV"] = list(TEXT_VARIANTS)
-    LIST_MODES["TV"] = ("auto", "math", "logic", "transform")
+    # ---- TOOL / TV lists ----------------------------------------------------------------------------
     pool = full + r1_narrow
     tool_texts = []
     for a in pool:
@@ -749,10 +760,18 @@ def run(ctx):
             tool_texts.append(f"probe(j={b.t}, k={a.t})")
     LISTS["TOOL"] = tool_texts
     LIST_MODES["TOOL"] = ("auto", "tool")
-    for name in ("TV", "TOOL"):
-        before = total["n_expr"]
-        _run_tasks([("LIST", name, i) for i in range(LIST_STRIDE)], ctx, total)
-        sizes[name] = total["n_expr"] - before
+    before = total["n_expr"]
+    _run_tasks([("LIST", "TOOL", i) for i in range(LIST_STRIDE)], ctx, total)
+    sizes["TOOL"] = total["n_expr"] - before
+    # hand-written variants may coincide with generated texts: judged like everything else, but kept out of the
+    # distinct-expression counts
+    LISTS["TV"] = list(TEXT_VARIANTS)
+    LIST_MODES["TV"] = ("auto", "math", "logic", "transform")
+    tv = new_acc()
+    _run_tasks([("LIST", "TV", i) for i in range(LIST_STRIDE)], ctx, tv)
+    sizes["TV(not in distinct counts)"] = tv["n_expr"]
+    tv["n_expr"] = tv["n_nontrivial"] = 0
+    merge_acc(total, tv)
 
     # ---- report ---------------------------------------------------------------------------------------
     for key in sorted(total["viol"]):
